@@ -344,6 +344,81 @@ fn check_asn1(c: &Asn1Case) -> CaseResult {
     pass(lz > 0 || top || c.compressed, format!("asn1/lz={}{}", lz.min(3), if top { "/top-bit" } else { "" }))
 }
 
+/// A well-formed PKCS#8 / SPKI envelope around a private scalar of `dlen` bytes and a public-key string of `plen` bytes (None: absent)
+#[derive(Serialize, Deserialize, Hash, Debug, Clone)]
+pub struct KeyLens {
+    pub dlen: usize,
+    pub plen: Option<usize>,
+}
+
+pub fn check_key_lens(c: &KeyLens) -> CaseResult {
+    let n = &r2::params().n;
+    let d = from_be(&expand_bytes(0xa5b1, 32)) % (n - 2u32) + 1u32;
+    let d32 = to32(&d);
+    let q65 = r2::encode_uncompressed(&r2::g_mul(&d));
+    let fit = |src: &[u8], l: usize| -> Vec<u8> { let mut v = vec![0u8; l]; for i in 0..l.min(src.len()) { v[l - 1 - i] = src[src.len() - 1 - i]; } v };
+    let dbytes = fit(&d32, c.dlen);
+    let pbytes = c.plen.map(|l| { let mut v = fit(&q65[1..], l.saturating_sub(1)); if l > 0 { v.insert(0, 4); } v });
+    let doc = der::pkcs8_raw(&dbytes, pbytes.as_deref());
+    match outcome(|| Sm2PrivateKey::from_pkcs8_der(&doc)) {
+        Outcome::Panic(p) => return fail(format!("entry=Sm2PrivateKey::from_pkcs8_der input=field-lengths outcome=panic site={}", panic_site(&p)), format!("private key of {} bytes, public key of {:?} bytes: {}", c.dlen, c.plen, p)),
+        Outcome::Ok(sk) => {
+            ensure!(c.dlen == 32, "entry=Sm2PrivateKey::from_pkcs8_der input=private-key-length!=32 outcome=accepted", "a private key of {} bytes was accepted as {:x}", c.dlen, crate::refimpl::field::from_limbs(&sk.d));
+            ensure!(crate::refimpl::field::from_limbs(&sk.d) == d, "entry=Sm2PrivateKey::from_pkcs8_der outcome=wrong-scalar", "{:x}", crate::refimpl::field::from_limbs(&sk.d));
+        }
+        Outcome::Err(_) => {}
+    }
+    if let Some(pb) = &pbytes {
+        let spki = der::spki(pb);
+        match outcome(|| Sm2PublicKey::from_public_key_der(&spki)) {
+            Outcome::Panic(p) => return fail(format!("entry=Sm2PublicKey::from_public_key_der input=field-lengths outcome=panic site={}", panic_site(&p)), format!("public key of {} bytes: {}", pb.len(), p)),
+            Outcome::Ok(pk) => ensure!(r2::decode_point(pb).is_some() && pk_point(&pk)? == r2::decode_point(pb).unwrap(), "entry=Sm2PublicKey::from_public_key_der input=field-lengths outcome=accepted-invalid", "public key of {} bytes accepted", pb.len()),
+            Outcome::Err(_) => {}
+        }
+    }
+    pass(true, "key-field-lengths")
+}
+
+/// An SM2Cipher document whose two INTEGERs have content lengths (lx, ly), whatever that does to their value
+#[derive(Serialize, Deserialize, Hash, Debug, Clone)]
+pub struct Asn1Lens {
+    pub lx: usize,
+    pub ly: usize,
+    pub compressed: bool,
+}
+
+pub fn check_asn1_lens(c: &Asn1Lens) -> CaseResult {
+    let n = &r2::params().n;
+    let d = from_be(&expand_bytes(0xa5a5, 32)) % (n - 2u32) + 1u32;
+    let k = from_be(&expand_bytes(0xa5a6, 32)) % (n - 1u32) + 1u32;
+    let msg = b"asn1 integer lengths".to_vec();
+    let Some(w) = r2::encrypt_with_k(&r2::g_mul(&d), &msg, &k) else { return pass(false, "retry") };
+    let (x, y) = r2::xy(&w.c1).unwrap();
+    // content of length l: the genuine coordinate right-aligned (cut or zero-extended on the left), first byte forced into 01..7f so that the
+    // INTEGER is minimal and positive whatever its length
+    let content = |coord: &[u8; 32], l: usize| -> Vec<u8> {
+        let mut v = vec![0u8; l];
+        for i in 0..l.min(32) {
+            v[l - 1 - i] = coord[31 - i];
+        }
+        if l > 0 && (v[0] == 0 || v[0] >= 0x80) {
+            v[0] = 0x41;
+        }
+        v
+    };
+    let doc = der::seq(&[der::tlv(0x02, &content(&x, c.lx)), der::tlv(0x02, &content(&y, c.ly)), der::tlv(0x04, &w.c3), der::tlv(0x04, &w.c2)]);
+    let sk = lib_sk(&d).map_err(|e| Fail { key: "entry=Sm2PrivateKey::new input=d-in-[1,n-2] outcome=rejected".into(), detail: e })?;
+    let got = outcome(|| sk.decrypt_asn1(&doc, c.compressed, Sm2Model::C1C3C2));
+    match got {
+        Outcome::Panic(p) => fail(format!("entry=Sm2PrivateKey::decrypt_asn1 input=integer-lengths outcome=panic site={}", panic_site(&p)), format!("x INTEGER of {} bytes, y INTEGER of {} bytes, compressed={}: {}", c.lx, c.ly, c.compressed, p)),
+        Outcome::Ok(m) => {
+            ensure!(m == msg, "entry=Sm2PrivateKey::decrypt_asn1 outcome=wrong-plaintext", "lx={} ly={}: {}", c.lx, c.ly, hex::encode(&m));
+            pass(true, "asn1-lens/accepted")
+        }
+        Outcome::Err(_) => pass(true, "asn1-lens/rejected"),
+    }
+}
+
 #[derive(Serialize, Deserialize, Hash, Debug, Clone)]
 pub struct EdgeAsn1 {
     pub d: Hex,
@@ -600,6 +675,32 @@ pub fn run(ctx: &Ctx) {
     }, check_asn1);
 
     ctx.listed("edge_point_public_keys", "boundary points of the curve (x next to 0, n, p, powers of two, Montgomery limb patterns, y with a leading zero byte) as public keys: every decoder, re-encoding, SPKI", || (0..edge_points().len()).collect::<Vec<usize>>(), check_edge_public);
+
+    ctx.exhaustive("key_document_field_length_grid", "well-formed PKCS#8 envelopes whose private-key OCTET STRING has every length 0..=40 and whose public-key BIT STRING is absent or has every length 0..=70 (and the SPKI with that public key): never a panic; a key only when the scalar has 32 bytes", || {
+        let mut v = Vec::new();
+        for dlen in 0..=40usize {
+            v.push(KeyLens { dlen, plen: None });
+            for plen in [0usize, 1, 32, 33, 34, 64, 65, 66] {
+                v.push(KeyLens { dlen, plen: Some(plen) });
+            }
+        }
+        for plen in 0..=70usize {
+            v.push(KeyLens { dlen: 32, plen: Some(plen) });
+        }
+        v
+    }, check_key_lens);
+
+    ctx.exhaustive("asn1_integer_length_grid", "SM2Cipher documents whose x and y INTEGERs have every content length 0..=36 x 0..=36 (both flag values): never a panic; a plaintext only if it is the right one", || {
+        let mut v = Vec::new();
+        for lx in 0..=36usize {
+            for ly in 0..=36usize {
+                for compressed in [false, true] {
+                    v.push(Asn1Lens { lx, ly, compressed });
+                }
+            }
+        }
+        v
+    }, check_asn1_lens);
 
     ctx.listed("asn1_edge_points", "SM2Cipher documents whose (x, y) is a boundary point, written by the reference DER writer, x 4 flag combinations", move || {
         let mut v = Vec::new();
